@@ -208,6 +208,10 @@ func gen(r *verifsim.Rng, tier string) (any, hx.Sched) {
 	}
 	w.MW = verifsim.Pick(r, []int{0, 0, 0, 1, 2})
 	w.Annot = !depthRun && r.Intn(5) == 0
+	if r.Intn(4) == 0 {
+		// longer chains (a slice built by repeated append has spare capacity at 3, 5, 6 and 7 elements)
+		w.MW = 3 + r.Intn(6)
+	}
 	if !depthRun {
 		w.OnFormatAt = verifsim.Pick(r, []int{0, 0, 1, 2, 2})
 	}
